@@ -207,3 +207,28 @@ Proof.
   exists [0%Z], [10%Z], fchk, 1, o_wca, st0, x', evs, o', y.
   split; [exact box0|split; [apply (st0_init false)|split; [exact E|split; [exact Hy|exact Hn]]]].
 Qed.
+
+(* ------------------------------------------------------------------ histories in full generality (Analysis/Tasks.v)
+   Every task with its OWN non-swarm optimizer, objective, iteration count, greedy clause, local arrays and draw stream
+   (observer hook): every record of every task is truthful for THAT task's objective -- in particular after the objective
+   of a space was exchanged between two tasks -- and within each task its greedy clause holds. *)
+From OV Require Import Analysis.Tasks.
+
+Definition c20_task_ok (lbs : list Z) (INIT : list contents) (g : task -> gmode) (t : task) : Prop :=
+  prog20_ok (g t) (tp t) = true /\ thk t = hk /\ Forall (fun c => In c INIT /\ wf lbs c) (tlc t).
+
+Theorem C20_task_histories_general : forall (lbs ubs : list Z) (INIT : list contents),
+  Forall2 (fun l h => kle l h = true) lbs ubs ->
+  forall (g : task -> gmode) ts x0 rs x', Forall (c20_task_ok lbs INIT g) ts -> restart_ok lbs ubs INIT x0 ->
+    thist lbs ubs okc ts x0 rs x' ->
+    Forall2 (fun t r => task20_ok (tf t) (g t) r) ts rs /\ restart_ok lbs ubs INIT x'.
+Proof.
+  intros lbs ubs INIT Hb g ts x0 rs x' HQ H0 Ht. induction Ht as [x|t ts x x1 evs1 o1 rest x2 Hrun Ht IH].
+  - split; [constructor|exact H0].
+  - destruct (Forall_inv HQ) as (Hc & Hh & Hlc). rewrite Hh in Hrun.
+    assert (T1 : tasks20 lbs ubs (tf t) (tn t) INIT [tp t] x [(with_loc x (tlc t), evs1, x1)] x1).
+    { eapply tasks20_cons; [exact Hlc|exact Hrun|apply tasks20_nil]. }
+    destruct (C20_task_histories lbs ubs (tf t) (tn t) INIT Hb (g t) [tp t] (Forall_cons _ Hc (Forall_nil _)) x _ x1 H0 T1) as [A B].
+    destruct (IH (Forall_inv_tail HQ) B) as [C D].
+    split; [constructor; [exact (Forall_inv A)|exact C]|exact D].
+Qed.
